@@ -28,7 +28,61 @@ NAT = {"S": ("M", 60), "M": ("H", 60), "H": ("d", 24), "d": ("w", 7), "m": ("Y",
 
 
 def plan(ctx):
-    return [("conserve", {"shard": i, "nshards": 16}) for i in range(16)]
+    return [("conserve", {"shard": i, "nshards": 16}) for i in range(16)] + \
+        [("names", {"shard": i, "nshards": 4}) for i in range(4)]
+
+
+# a calendar name given to -f stands for a duration format; the units it asks for are those of the
+# spelled-out format it is documented to abbreviate (lib: *dur_dflt), which conserve() judges
+NAMES = {
+    "ymd": ("%Y-%0m-%0d", "%0Y-%0m-%0dT%0H:%0M:%0S"),
+    "ymcw": ("%Y-%0m-%0w-%0d", "%Y-%0m-%0w-%0dT%0H:%0M:%0S"),
+    "ywd": ("%Y-W%0w-%d", "%Y-W%0w-%0dT%0H:%0M:%0S"),
+    "yd": ("%Y-%0d", "%Y-%0dT%0H:%0M:%0S"),
+    "daisy": ("%d", "%dT%0H:%0M:%0S"),
+    "bizsi": ("%db", "%dbT%0H:%0M:%0S"),
+    "bizda": ("%Y-%0m-%0db", "%Y-%0m-%0dbT%0H:%0M:%0S"),
+}
+
+
+def names(ctx, shard, nshards):
+    sub = Sub("c06.names")
+    V = Viol(sub, "C06")
+    rnd = random.Random(ctx.sub_seed("c06n", shard))
+    B = boundary()
+    for it in range(40 if not ctx.thorough else 400):
+        with_time = rnd.random() < 0.5
+        a = rnd.choice(B) if rnd.random() < 0.5 else rnd.randrange(R.NMIN + 200, R.NMAX - 200)
+        a = max(R.NMIN + 200, min(R.NMAX - 200, a))
+        sa = rnd.randrange(86400) if with_time else 0
+        Bs = []
+        for _ in range(40):
+            g = G.gap(rnd, rnd.choice(G.GAPS))
+            if not with_time:
+                g = g // 86400 * 86400
+            n, s_ = divmod(a * 86400 + sa + g * rnd.choice((1, -1)), 86400)
+            if R.NMIN + 100 <= n <= R.NMAX - 100:
+                Bs.append((n, s_))
+        a_txt = G.dt(a, sa, with_time, "ymd")
+        lines = [G.dt(b, s_, with_time, "ymd") for b, s_ in Bs]
+        for name, fm in NAMES.items():
+            fmt = fm[1 if with_time else 0]
+            try:
+                o1, _ = run_lines(ctx.build, "ddiff", [a_txt, "-f", name], lines)
+                o2, _ = run_lines(ctx.build, "ddiff", [a_txt, "-f", fmt], lines)
+            except BatchError as e:
+                V.add("batch:name:" + name, {"a": a_txt, "fmt": name, "lines": lines[:5], "kind": "batch"},
+                      detail=str(e), actual=e.result.brief())
+                continue
+            for l, x, y in zip(lines, o1, o2):
+                sub.evaluations += 1
+                sub.nt((name, a_txt, l))
+                if x != y:
+                    V.add("name:%s%s" % (name, ":t" if with_time else ""),
+                          {"a": a_txt, "b": l, "name": name, "fmt": fmt, "kind": "name"}, expected=y, actual=x)
+        if it == 0 and shard == 0:
+            sub.sample({"cmd": "ddiff %s %s -f yd" % (a_txt, lines[0]), "same_as": "-f '%s'" % NAMES["yd"][1 if with_time else 0]})
+    return sub
 
 
 def _judge(kind, us, A, Bv, text, with_time):
@@ -165,6 +219,11 @@ def conserve(ctx, shard, nshards):
 
 
 def replay(ctx, subname, case):
+    if case.get("kind") == "name":
+        x, _ = run_lines(ctx.build, "ddiff", [case["a"], "-f", case["name"]], [case["b"]])
+        y, _ = run_lines(ctx.build, "ddiff", [case["a"], "-f", case["fmt"]], [case["b"]])
+        return None if x == y else {"a": case["a"], "b": case["b"], "name": case["name"], "actual": x[0],
+                                    "fmt": case["fmt"], "expected": y[0]}
     if case["kind"] == "batch":
         try:
             run_lines(ctx.build, "ddiff", [case["a"], "-f", case["fmt"]], case["lines"])
